@@ -14,14 +14,18 @@ the steps of the Lean model `FfcxModel/Jit/Cache.lean` (same op / result names):
     swap     jit.root_logger.handlers = [capture]   (first assignment; redirect_stdout enters silently)
     src obj link1 link2    the four phases of `cffi.FFI.compile` ok | raise
     unredir  redirect_stdout.__exit__ on the normal path
-    markcreate  jit.open(<module>.c.cached, "x")           ok | exists | raise
-    markwrite   fd.write(s) and fd.close() of the file object returned by that open    ok | raise
-    markremove  jit.os.remove(<module>.c.cached) in the handler around write/close    ok
+    tmpcreate   jit.open(<module>.c.cached.tmp<pid>, "x")  ok | exists | raise
+    tmpwrite    fd.write(s) and the close at the end of the `with` block, of the file object
+                returned by that open                      ok | raise
+    markcheck   ready_name.exists()  (jit.Path is replaced by a subclass)    true | false
+    publish     jit.os.replace(tmp_name, ready_name)       ok | raise
+    tmpremove   jit.os.remove(tmp_name) in the inner `finally`               ok
+                (the `tmp_name.exists()` before it is not a step: the file is private to the request)
     restore  jit.root_logger.handlers = old_handlers (second assignment)
     release  jit.os.replace(.c -> .c.failed)               ok | enoent
 
-choice: "none" | "fail" (the gated op raises, meaningful for gen/src/obj/link1/link2/markcreate/
-markwrite; at markwrite either `fd.write` raises before anything is written or - with
+choice: "none" | "fail" (the gated op raises, meaningful for gen/src/obj/link1/link2/tmpcreate/
+tmpwrite/publish; at tmpwrite either `fd.write` raises before anything is written or - with
 `Patches.markwrite_fail_at = "close"` - the write goes through and `fd.close` raises) | "kill" (the
 thread is abandoned at its gate: it never runs again, files stay as they are) | "again" (a thread
 whose request has returned or raised issues a new `compile_forms` call — the same "process" asks
@@ -47,6 +51,8 @@ import importlib.util
 import io
 import logging
 import os
+import pathlib
+import re
 import shutil
 import sys
 import threading
@@ -61,9 +67,10 @@ import ffcx
 import ffcx.codegeneration.jit as jit
 import ffcx.compiler
 
-BUILDER_OPS = ["lock", "gen", "swap", "src", "obj", "link1", "link2", "unredir", "markcreate", "markwrite", "restore",
-               "find", "load"]
-FAILABLE = {"gen", "src", "obj", "link1", "link2", "markcreate", "markwrite"}
+BUILDER_OPS = ["lock", "gen", "swap", "src", "obj", "link1", "link2", "unredir", "tmpcreate", "tmpwrite", "markcheck",
+               "publish", "restore", "find", "load"]
+FAILABLE = {"gen", "src", "obj", "link1", "link2", "tmpcreate", "tmpwrite", "publish"}
+TMP_RE = re.compile(r"\.c\.cached\.tmp\d+$")
 COMPILE_OPS = {"src", "obj", "link1", "link2"}
 STEP_TIMEOUT_S = 120.0
 
@@ -81,11 +88,15 @@ class InjectedCompileError(cffi.VerificationError):
 
 
 class InjectedMarkerOpenError(OSError):
-    """open(ready_name, "x") fails for a reason other than EEXIST (nothing is created)."""
+    """open(tmp_name, "x") fails for a reason other than EEXIST (nothing is created)."""
 
 
 class InjectedMarkerWriteError(OSError):
-    """fd.write(s) / fd.close() on the freshly created ready marker fails (ENOSPC, EIO, ...)."""
+    """fd.write(s) / fd.close() on the marker under construction fails (ENOSPC, EIO, ...)."""
+
+
+class InjectedPublishError(OSError):
+    """os.replace(tmp_name, ready_name) fails."""
 
 
 class SchedulerError(RuntimeError):
@@ -262,7 +273,8 @@ class Reference:
     def abstract_fs(self, d: Path):
         d = Path(d)
         names = set(os.listdir(d)) if d.exists() else set()
-        known = {self.c_name, self.o_name, self.so_name, self.marker_name, self.failed_name}
+        tmps = {n for n in names if n.startswith(self.marker_name) and TMP_RE.search(n)}
+        known = {self.c_name, self.o_name, self.so_name, self.marker_name, self.failed_name} | tmps
         c = d / self.c_name
         lock = "absent" if self.c_name not in names else ("empty" if c.stat().st_size == 0 else "source")
         fs = {
@@ -271,6 +283,7 @@ class Reference:
             "obj": self.o_name in names,
             "marker": self.marker_name in names,
             "failed": self.failed_name in names,
+            "tmp": bool(tmps),
         }
         return fs, sorted(names - known)
 
@@ -392,10 +405,12 @@ class Scenario:
                 return on_fail()
             if op == "gen":
                 raise InjectedCodegenError("injected code generation failure")
-            if op == "markcreate":
-                raise InjectedMarkerOpenError(13, "injected failure of open(ready_name, 'x')")
-            if op == "markwrite":
+            if op == "tmpcreate":
+                raise InjectedMarkerOpenError(13, "injected failure of open(tmp_name, 'x')")
+            if op == "tmpwrite":
                 raise InjectedMarkerWriteError(28, "injected failure of fd.write on the ready marker")
+            if op == "publish":
+                raise InjectedPublishError(5, "injected failure of os.replace(tmp_name, ready_name)")
             raise InjectedCompileError(f"injected C compiler failure at {op}")
         try:
             v = action()
@@ -535,9 +550,8 @@ class Scenario:
 
 
 class _MarkerFile:
-    """The file object `open(ready_name, "x")` returned: the first `write` is the gate `markwrite`
-    (the following `close` belongs to the same step).  Also usable as a context manager, should
-    jit.py be rewritten to `with open(ready_name, "x") as fd: fd.write(s)`."""
+    """The file object `open(tmp_name, "x")` returned (the marker under construction): the first `write`
+    is the gate `tmpwrite`; the following `close` (end of the `with` block) belongs to the same step."""
 
     def __init__(self, patches, f):
         self._p, self._f = patches, f
@@ -567,7 +581,7 @@ class _MarkerFile:
             raise InjectedMarkerWriteError(28, "No space left on device (injected at fd.write of the ready marker)")
 
         try:
-            return sc.gate("markwrite", lambda: self._f.write(data), lambda v, e: "ok" if e is None else "error:" + type(e).__name__,
+            return sc.gate("tmpwrite", lambda: self._f.write(data), lambda v, e: "ok" if e is None else "error:" + type(e).__name__,
                            on_fail=on_fail)
         except Killed:
             self._quiet_close()
@@ -592,7 +606,7 @@ class Patches:
     """Installs the gates into jit.py's module globals; restores everything on exit."""
 
     # module globals of jit.py the gates are installed into
-    REQUIRED = ("os", "time", "importlib", "cffi", "root_logger", "redirect_stdout")
+    REQUIRED = ("os", "time", "importlib", "cffi", "root_logger", "redirect_stdout", "Path")
 
     def __init__(self, ref: Reference):
         self.ref = ref
@@ -619,8 +633,8 @@ class Patches:
     def _open(self, file, mode="r", *a, **k):
         sc = self._sc()
         name = str(file)
-        if sc is not None and mode == "x" and (name.endswith(".c") or name.endswith(".c.cached")):
-            op = "lock" if name.endswith(".c") else "markcreate"
+        if sc is not None and mode == "x" and (name.endswith(".c") or TMP_RE.search(name)):
+            op = "lock" if name.endswith(".c") else "tmpcreate"
 
             def cls(v, e):
                 if e is None:
@@ -628,7 +642,7 @@ class Patches:
                 return "exists" if isinstance(e, FileExistsError) else "error:" + type(e).__name__
 
             f = sc.gate(op, lambda: open(file, mode, *a, **k), cls)
-            return _MarkerFile(self, f) if op == "markcreate" else f
+            return _MarkerFile(self, f) if op == "tmpcreate" else f
         return open(file, mode, *a, **k)
 
     def _exists(self, p):
@@ -647,6 +661,8 @@ class Patches:
 
     def _replace(self, a, b):
         sc = self._sc()
+        if sc is not None and str(b).endswith(".c.cached"):
+            return sc.gate("publish", lambda: os.replace(a, b), lambda v, e: "ok" if e is None else "error:" + type(e).__name__)
         if sc is not None:
             def cls(v, e):
                 if e is None:
@@ -658,8 +674,8 @@ class Patches:
 
     def _remove(self, p):
         sc = self._sc()
-        if sc is not None and str(p).endswith(".c.cached"):
-            return sc.gate("markremove", lambda: os.remove(p), lambda v, e: "ok" if e is None else "error:" + type(e).__name__)
+        if sc is not None and TMP_RE.search(str(p)):
+            return sc.gate("tmpremove", lambda: os.remove(p), lambda v, e: "ok" if e is None else "error:" + type(e).__name__)
         return os.remove(p)
 
     def _sleep(self, secs):
@@ -714,6 +730,16 @@ class Patches:
                              + " (the gates of harness/sched.py are installed by replacing them)")
         patches = self
         real_root = logging.getLogger()
+
+        class GatedPath(type(pathlib.Path())):
+            """jit.Path: `ready_name.exists()` is the gate `markcheck`."""
+
+            def exists(self, *a, **k):
+                sc = patches._sc()
+                if sc is not None and self.name.endswith(".c.cached"):
+                    return sc.gate("markcheck", lambda: pathlib.Path.exists(self, *a, **k),
+                                   lambda v, e: ("true" if v else "false") if e is None else "error")
+                return pathlib.Path.exists(self, *a, **k)
 
         class OsPath:
             def __getattr__(self, n):
@@ -834,7 +860,7 @@ class Patches:
 
         self._saved = {
             "os": jit.os, "time": jit.time, "importlib": jit.importlib, "cffi": jit.cffi,
-            "root_logger": jit.root_logger, "redirect_stdout": jit.redirect_stdout,
+            "root_logger": jit.root_logger, "redirect_stdout": jit.redirect_stdout, "Path": jit.Path,
             "has_open": "open" in jit.__dict__, "open": jit.__dict__.get("open"),
             "compile_ufl_objects": ffcx.compiler.compile_ufl_objects,
             "handlers": list(real_root.handlers), "stdout": sys.stdout,
@@ -845,6 +871,7 @@ class Patches:
         jit.cffi = cffi_shim
         jit.root_logger = RootProxy()
         jit.redirect_stdout = Redirect
+        jit.Path = GatedPath
         jit.open = self._open
         ffcx.compiler.compile_ufl_objects = self._compile_ufl_objects
 
@@ -853,7 +880,7 @@ class Patches:
         if s is None:
             return
         jit.os, jit.time, jit.importlib, jit.cffi = s["os"], s["time"], s["importlib"], s["cffi"]
-        jit.root_logger, jit.redirect_stdout = s["root_logger"], s["redirect_stdout"]
+        jit.root_logger, jit.redirect_stdout, jit.Path = s["root_logger"], s["redirect_stdout"], s["Path"]
         if s["has_open"]:
             jit.open = s["open"]
         else:
@@ -880,7 +907,7 @@ class Patches:
 def patches_intact():
     """True iff none of jit.py's globals is still patched (used by the checks' self-test)."""
     want = {"os": os, "time": _time, "importlib": importlib, "cffi": cffi, "root_logger": logging.getLogger(),
-            "redirect_stdout": contextlib.redirect_stdout}
+            "redirect_stdout": contextlib.redirect_stdout, "Path": pathlib.Path}
     # (a global jit.py does not have cannot be patched: see CannotGate)
     return (
         all(getattr(jit, n) is v for n, v in want.items() if hasattr(jit, n))
@@ -919,7 +946,8 @@ def model_status(proc):
     if isinstance(pc, list) and pc[0] == "raised":
         if pc[1] == "build":
             exc = {"gen": "InjectedCodegenError", "compile": "InjectedCompileError", "marker": "FileExistsError",
-                   "markopen": "InjectedMarkerOpenError", "markwrite": "InjectedMarkerWriteError"}[pc[2]]
+                   "tmpexists": "FileExistsError", "tmpopen": "InjectedMarkerOpenError",
+                   "tmpwrite": "InjectedMarkerWriteError", "publish": "InjectedPublishError"}[pc[2]]
         else:
             exc = _EXC_OF[("raised", pc[1])]
         return ("raised", exc, "none", polls)
@@ -952,7 +980,8 @@ def compare(sc: Scenario, reply, schedule):
     if len(sc.trace) != len(mtrace):
         diffs.append(("trace-length", len(sc.trace), len(mtrace)))
     fs, extra = sc.fs()
-    want = {"lock": mfs[0], "so": mfs[1], "obj": mfs[2] == "true", "marker": mfs[3] == "true", "failed": mfs[4] == "true"}
+    want = {"lock": mfs[0], "so": mfs[1], "obj": mfs[2] == "true", "marker": mfs[3] == "true", "failed": mfs[4] == "true",
+            "tmp": mfs[6] == "true"}
     if fs != want:
         diffs.append(("fs", {"impl": fs, "model": want}))
     if sc.so_gen != int(mfs[5]):
